@@ -38,10 +38,10 @@ fn run_isolated(f: impl FnOnce() -> String + Send + 'static) -> Result<String, S
 }
 
 macro_rules! hv_programs {
-    ($set:ident; $(($m:ident, $f:ident, $exp:ident);)*) => {
+    ($set:ident; $(($m:ident, $f:ident, $exp:ident, $run:ident);)*) => {
         mod $set {
             use super::*;
-            pub fn generate_all(out: &mut Vec<(String, String, Result<String, String>)>) {
+            pub fn generate_all(out: &mut Vec<(String, String, String, Result<String, String>)>) {
                 $(
                     let r = run_isolated(|| {
                         let mut flow = FlowBuilder::new();
@@ -62,7 +62,7 @@ macro_rules! hv_programs {
                             .generate_embedded("hv_prog_flows");
                         prettyplease::unparse(&code)
                     });
-                    out.push((stringify!($f).to_string(), stringify!($exp).to_string(), r));
+                    out.push((stringify!($f).to_string(), stringify!($exp).to_string(), stringify!($run).to_string(), r));
                 )*
             }
         }
@@ -71,6 +71,31 @@ macro_rules! hv_programs {
 include!("../hv_prog_flows/src/gen/list.in");
 #[cfg(feature = "thorough")]
 include!("../hv_prog_flows/src/gen/list_thorough.in");
+
+/// Inputs: tick 0 gets in1 = [1, 2, 3], in2 = [5]; tick 1 gets in1 = [4, 5, 6], in2 = [6]; later
+/// ticks get nothing.  Everything handed to the output callback during a tick is that tick's output.
+const RUNNER: &str = r#"
+pub fn run_NAME(ticks: usize) -> Vec<Vec<String>> {
+    let cur: std::rc::Rc<std::cell::RefCell<Vec<String>>> = Default::default();
+    let sink = cur.clone();
+    let in1 = dfir_rs::util::unbounded_channel::<i32>();
+    let in2 = dfir_rs::util::unbounded_channel::<i32>();
+    let mut outs = NAME::loc1::EmbeddedOutputs { out: move |x| sink.borrow_mut().push(format!("{:?}", x)) };
+    let mut flow = NAME::loc1(in1.1, in2.1, &mut outs);
+    let mut res = Vec::new();
+    for t in 0..ticks {
+        if t < 2 {
+            for k in 1..=3 {
+                in1.0.send((3 * t + k) as i32).unwrap();
+            }
+            in2.0.send((5 + t) as i32).unwrap();
+        }
+        flow.run_tick_sync();
+        res.push(std::mem::take(&mut *cur.borrow_mut()));
+    }
+    res
+}
+"#;
 
 fn main() {
     println!("cargo::rerun-if-changed=build.rs");
@@ -91,8 +116,10 @@ fn main() {
     #[cfg(feature = "thorough")]
     t::generate_all(&mut all);
     let mut mods = String::new();
+    let mut runners = String::new();
+    let mut dispatch = String::new();
     let mut log = Vec::new();
-    for (name, expect, r) in &all {
+    for (name, expect, run, r) in &all {
         match r {
             Ok(code) => {
                 std::fs::write(format!("{out_dir}/{name}.rs"), code).unwrap();
@@ -101,6 +128,11 @@ fn main() {
                     mods.push_str(&format!(
                         "pub mod {name} {{ include!(concat!(env!(\"OUT_DIR\"), \"/{name}.rs\")); }}\n"
                     ));
+                    if run == "run" {
+                        // instantiate the emitted function of a single-location program and run it
+                        runners.push_str(&RUNNER.replace("NAME", name));
+                        dispatch.push_str(&format!("        \"{name}\" => Some(run_{name}(ticks)),\n"));
+                    }
                 }
                 log.push(serde_json::json!({"prog": name, "expect": expect, "verdict": "ok", "msg": "",
                     "compiled": !excluded, "code": fnv_hex(code), "clen": code.len()}));
@@ -111,6 +143,11 @@ fn main() {
             }
         }
     }
+    mods.push_str(&runners);
+    mods.push_str(&format!(
+        "/// Runs the emitted dataflow of a single-location program for `ticks` ticks; per tick the items it emitted.\n\
+         pub fn run_prog(name: &str, ticks: usize) -> Option<Vec<Vec<String>>> {{\n    match name {{\n{dispatch}        _ => None,\n    }}\n}}\n"
+    ));
     std::fs::write(format!("{out_dir}/gen_progs.rs"), mods).unwrap();
     std::fs::write(
         format!("{out_dir}/build_log.json"),
